@@ -8,6 +8,7 @@ static const char *PNAME[P_NPOL] = {"internal", "calendar", "key", "pubfile", "u
  * 6 legacy RFC3161 form whose first link carries level correction 2 (level must still be 0);
  * 7 legacy RFC3161 form whose record input hash (the document) is SHA-512 while the record's output / first chain input is SHA-256 */
 #define NSIGV 8
+static unsigned g_doc_seed_bump;      /* another document, same shape */
 static void make_sig(rsig *s, int variant, int form, const rk_cert *signer) {
 	rs_params p;
 	static const unsigned LC[] = {3, 0, 1, 7, 254, 0, 2, 0};
@@ -18,6 +19,7 @@ static void make_sig(rsig *s, int variant, int form, const rk_cert *signer) {
 		p.link_desc[0][0] = 0u | (LC[variant] << 3); p.link_desc[0][1] = 1 | (1 << 1); p.link_desc[1][0] = 1;
 	}
 	p.aggr_time = FX_T0; p.pub_time = FX_P0; p.tail = form; p.with_rfc3161 = variant >= 5;
+	p.doc_seed += g_doc_seed_bump;
 	rs_build(s, &p);
 	if (variant == 7) {
 		s->rfc.input_len = ref_fake_imprint(RH_SHA512, 77, s->rfc.input);
@@ -29,6 +31,7 @@ static void make_sig(rsig *s, int variant, int form, const rk_cert *signer) {
 typedef struct {
 	KSI_CTX *ctx;
 	KSI_Signature *sig;
+	KSI_Signature *other;         /* a signature of the same shape for ANOTHER document (left in the caller's context by an earlier use) */
 	rsig model;
 	KSI_VerificationContext vc;
 	KSI_PublicationData *upd;
@@ -51,6 +54,17 @@ static void world_open(world_t *w, int pol, int variant) {
 	vb_init(&sb); vb_init(&pf);
 	rs_serialize(&w->model, &sb);
 	if (KSI_Signature_parseWithPolicy(w->ctx, sb.p, sb.n, KSI_VERIFICATION_POLICY_EMPTY, NULL, &w->sig) != KSI_OK) vf_harness_error("fixture signature refused");
+	{
+		rsig om;
+		vbuf ob;
+		g_doc_seed_bump = 1000;
+		make_sig(&om, variant == 7 ? 5 : variant, form, &fx_auth_cert);
+		g_doc_seed_bump = 0;
+		vb_init(&ob);
+		rs_serialize(&om, &ob);
+		if (KSI_Signature_parseWithPolicy(w->ctx, ob.p, ob.n, KSI_VERIFICATION_POLICY_EMPTY, NULL, &w->other) != KSI_OK) vf_harness_error("second fixture signature refused");
+		vb_free(&ob);
+	}
 	rs_aggr_root(&w->model, 0, FXS.root, &FXS.root_len, NULL);
 	KSI_VerificationContext_init(&w->vc, w->ctx);
 	w->vc.signature = w->sig;
@@ -82,6 +96,7 @@ static void world_close(world_t *w) {
 	KSI_PublicationData_free(w->upd);
 	KSI_PublicationsFile_free(w->upf);
 	KSI_Signature_free(w->sig);
+	KSI_Signature_free(w->other);
 	KSI_CTX_free(w->ctx);
 }
 
@@ -166,6 +181,13 @@ static void verify_all(world_t *w, const unsigned char *imprint, size_t n, int h
 			w->vc.documentHash = NULL;
 			KSI_DataHash_free(oh);
 		}
+		/* (2e) the caller's context still names ANOTHER signature (left there by an earlier verification): the signature given as
+		 * the first argument is the one that is verified */
+		w->vc.signature = w->other;
+		rc = KSI_Signature_verifyWithPolicy(w->sig, h, level, w->policy, &w->vc);
+		vf_count("impl_calls", 1);
+		judge(w, "verifyWithPolicy+ctx-other-signature", exp, rc, 0, 0, 0, detail);
+		w->vc.signature = w->sig; w->vc.documentHash = NULL; w->vc.docAggrLevel = 0;
 		/* (2c) hash and level only in the caller's context (explicit arguments NULL / 0), and (2d) the same context given to
 		 * the parsing helper, which verifies the freshly parsed signature with it */
 		{
